@@ -119,7 +119,10 @@ func (h *statusSessionHandler) handleStatusRequest(pc *proto.PacketContext) {
 
 	log := h.log
 	if h.resolvePingResponse == nil {
-		e.ping = newInitialPing(h.proxy, pc.Protocol)
+		// Use the protocol the client announced in its handshake: pc.Protocol is the protocol
+		// of the packet table used for decoding, which falls back to the oldest version for
+		// clients with an unsupported protocol.
+		e.ping = newInitialPing(h.proxy, h.conn.Protocol())
 	} else {
 		var err error
 		var res *packet.StatusResponse
